@@ -415,8 +415,19 @@ def count_distinct(outdir):
     files = [f for f in files if os.path.getsize(f) > 0]
     if not files:
         return 0
-    p = subprocess.run("cat %s | sort -u | wc -l" % " ".join(files), shell=True, stdout=subprocess.PIPE, text=True)
-    return int(p.stdout.strip() or 0)
+    # (thousands of chunk files at the thorough tier: fed through stdin, not through the argument list)
+    p = subprocess.Popen("sort -u | wc -l", shell=True, stdin=subprocess.PIPE, stdout=subprocess.PIPE)
+    for f in files:
+        with open(f, "rb") as fh:
+            while True:
+                block = fh.read(1 << 20)
+                if not block:
+                    break
+                p.stdin.write(block)
+    p.stdin.close()
+    out = p.stdout.read().decode().strip()
+    p.wait()
+    return int(out or 0)
 
 
 # ---------------------------------------------------------------------------------------------------------------
